@@ -142,6 +142,18 @@ func c04Plans(tier string) []faultPlan {
 		pl.KeepCtx = (i/20)%2 == 1
 		out = append(out, pl)
 	}
+	// an entry that is listed but whose lazy stat fails with something else
+	// than "vanished" (EIO): the walk has to fail, not go on without it
+	for t := 0; t < trees; t++ {
+		for k := 0; k < 14; k++ {
+			for _, tt := range []int{t, 1000 + t} {
+				pl := mkPlan(tt, "walk", "stat", k, 0)
+				out = append(out, pl)
+				pl.KeepCtx = true
+				out = append(out, pl)
+			}
+		}
+	}
 	return out
 }
 
@@ -221,7 +233,7 @@ func init() {
 	core.Register(&core.Prop{
 		ID:    "C04",
 		Level: "fault_enumeration",
-		Rule: "Added fault class earlyfin (a scripted peer sends k entries of the listing, a FIN nobody asked for, and goes away) and the oracle that nothing of Send is in flight on, or started on, its endpoint once it has returned. for a fixed 12-entry tree (and, in the thorough tier, 11 mutated variants) EVERY operation index k of every fault class is enumerated: error (once / sticky) or EOF at the k-th SendMsg/RecvMsg of either endpoint, cancellation of either context at global stream operation k, walk error at entry k, entry k removed from the disk at the moment the walk reports it (its lstat fails; the source view of that run is the directory without it), the source root itself unreadable when the walk starts (removed after the FS object was made; not listable for a uid-1234 sender), read error after j in {0,1,mid-chunk,chunk boundary,last byte} bytes of file k, hasher error at call k, notify error at call k, SIGKILL of a receiver process (real pipes, util.NewProtoStream) after k packets; plus sampled faults on a 300-file fan-out whose DATA packets are gated so that >132 requests are pending when the fault hits. Real Send and Receive run with separate contexts; termination is decided by the quiescence detector (teardown by the harness is allowed once, quiescence after it is a violation), leaks by goroutine sampling, stream operations started on an endpoint after its call has returned (the stream belongs to the caller again), false success by the C01 oracle and the packet log, recovery by a follow-up clean transfer. " +
+		Rule: "Added fault class earlyfin (a scripted peer sends k entries of the listing, a FIN nobody asked for, and goes away) and the oracle that nothing of Send is in flight on, or started on, its endpoint once it has returned. for a fixed 12-entry tree (and, in the thorough tier, 11 mutated variants) EVERY operation index k of every fault class is enumerated: error (once / sticky) or EOF at the k-th SendMsg/RecvMsg of either endpoint, cancellation of either context at global stream operation k, walk error at entry k, entry k listed but its lazy Info() failing with EIO, entry k removed from the disk at the moment the walk reports it (its lstat fails; the source view of that run is the directory without it), the source root itself unreadable when the walk starts (removed after the FS object was made; not listable for a uid-1234 sender), read error after j in {0,1,mid-chunk,chunk boundary,last byte} bytes of file k, hasher error at call k, notify error at call k, SIGKILL of a receiver process (real pipes, util.NewProtoStream) after k packets; plus sampled faults on a 300-file fan-out whose DATA packets are gated so that >132 requests are pending when the fault hits. Real Send and Receive run with separate contexts; termination is decided by the quiescence detector (teardown by the harness is allowed once, quiescence after it is a violation), leaks by goroutine sampling, stream operations started on an endpoint after its call has returned (the stream belongs to the caller again), false success by the C01 oracle and the packet log, recovery by a follow-up clean transfer. " +
 			"non-trivial = the addressed operation was reached (fault fired); distinct by fault plan; plans whose operation index exceeds the run are reported as not fired",
 		Assumptions:   []string{"root", "Open failures map to empty content by design and are not injected", "kernel-level disk faults on the receiving side are out of scope", "teardown = both directions fail and both contexts are cancelled (what a transport does when the connection breaks)"},
 		Cases:         func(tier string) int { return len(c04Plans(tier)) },
@@ -318,7 +330,11 @@ func c04Run(c *core.Ctx) *core.Result {
 	}
 	switch plan.Class {
 	case "walk":
-		sf.WalkErrAt = plan.K
+		if plan.Mode == "stat" {
+			sf.InfoErrAt = plan.K
+		} else {
+			sf.WalkErrAt = plan.K
+		}
 		if plan.K < len(src.Entries) {
 			obs.fired.Store(true)
 		}
